@@ -456,6 +456,9 @@ def network(profile="exact", max_ops=6, dtypes=("int8", "int8", "int8", "uint8",
             menu = list(EXACT_OPS)
             n_ops = draw(st.integers(1, max_ops))
             approx_tail = draw(st.sampled_from(["avgpool_same", "logistic", "tanh", "hswish", "lrelu", "mean", "resize_nearest", "avgpool_same", "tanh"]))
+        if profile == "luts":  # many table-driven activations in one NPU subgraph: LUT slot allocation, eviction and re-use (tables repeat because quantisations repeat)
+            menu = ["logistic", "tanh", "hswish", "lrelu", "logistic", "tanh", "hswish", "lrelu", "add_const", "relu", "conv", "softmax"]
+            n_ops = draw(st.integers(4, max(max_ops, 4)))
         if profile == "elementwise":  # binary operators with every broadcast form in either operand position, constants and scalars, chained
             menu = ["add", "sub", "sub", "mul", "maximum", "minimum", "add_const", "mul_const", "sub_const", "relu", "quantize", "reshape"]
             n_ops = draw(st.integers(1, max_ops))
@@ -563,6 +566,10 @@ def network(profile="exact", max_ops=6, dtypes=("int8", "int8", "int8", "uint8",
                 history.append(cur)
                 outputs = [o] + getattr(nb, "extra_outputs", [])
                 return dict(tensors=nb.tensors, ops=nb.ops, inputs=nb.inputs, outputs=outputs)
+            history.append(cur)
+        if approx_tail is not None and nb.info(cur)["dtype"] in ("int8", "uint8") and draw(st.booleans()):
+            # a clamp is monotone and 1-Lipschitz: the one-step tolerance of the approximate operator carries through it
+            cur = nb.unary(cur, draw(st.sampled_from(["RELU", "RELU6", "RELU_N1_TO_1"])), same_q=True)
             history.append(cur)
         outputs = [cur] + getattr(nb, "extra_outputs", [])
         if profile != "exact" and len(history) > 2 and draw(st.integers(0, 4)) == 0:
